@@ -352,7 +352,7 @@ func ruleC05R3(c *Ctx) {
 			c.check(ok, "C05.R3", f, "returned chunk channel comes from newLeftoverChannel", rv.At.Pos(), "the channel is nil, passed through, or built by newLeftoverChannel/collectLeftovers", "a leftovers channel is built without sorting by ID")
 		}
 	}
-	c.floor("C05.R3", "functions returning a chunk channel", n, 5)
+	c.floor("C05.R3", "functions returning a chunk channel", n, 3)
 }
 
 var zeroPadVerbs = regexp.MustCompile(`%0[0-9]+d`)
@@ -427,7 +427,7 @@ func ruleC05R6(c *Ctx) {
 			}
 		}
 	}
-	c.floor("C05.R6", "accesses of the id counters", na, 5)
+	c.floor("C05.R6", "accesses of the id counters", na, 3)
 	// fixed-width, zero-padded format so that string order = (time, sequence) order
 	okFmt := false
 	whyFmt := "chunk ids are not fixed-width: sorting them as strings (recovery, leftovers) no longer gives creation order"
